@@ -142,10 +142,24 @@ def gen_history(rng):
     return hist
 
 
-def gen_case(rng, families):
-    fam = rng.choice(families)
-    modes = ['scalar'] + (['array', 'callable'] if fam in DYN_PAR else []) + (['tp_callable', 'tp_callable'] if fam in TP_CALLABLE else [])
-    mode = rng.choice(modes)
+def modes_of(fam):
+    return ['scalar'] + (['array', 'callable'] if fam in DYN_PAR else []) + (['tp_callable', 'tp_callable'] if fam in TP_CALLABLE else [])
+
+
+def strata(families):
+    """ every (family, parameter mode) pair: each is exercised on EVERY run (the first cases of a run walk through this list;
+        the time-wrapped callable mode three times), the remaining cases are drawn at random """
+    out = []
+    for fam in families:
+        for mode in dict.fromkeys(modes_of(fam)):
+            out += [(fam, mode)] * (3 if mode == 'tp_callable' else 1)
+    return out
+
+
+def gen_case(rng, families, fam=None, mode=None):
+    fam = fam if fam is not None else rng.choice(families)
+    modes = modes_of(fam)
+    mode = mode if mode is not None else rng.choice(modes)
     n = rng.randint(4, 25)
     hi = 3 * n if rng.random() < 0.9 else rng.choice([1200, 5000, 20000])     # (now and then slots of a large population)
     slots = [rng.randint(0, hi) for _ in range(n)] if rng.random() < 0.6 else list(range(n))
@@ -211,8 +225,9 @@ def correspond(ctx):
     ncase = ctx.budget(150, 1200)
     lines03 = []; lines04 = []; plan = []
     modulo = (ctx.extracted.get('RngConsts', {}).get('facts') or {}).get('modulo', 10**9)
-    for _ in range(ncase):
-        c = gen_case(ctx.rng, families)
+    st = strata(families)
+    for i in range(ncase):
+        c = gen_case(ctx.rng, families, *(st[i] if i < len(st) else ()))
         slots = np.array(c['slots'])
         table = par_table(c['family'], c['n'], pyrandom.Random(c['tabseed'])) if c['mode'] != 'scalar' else None
         try:
@@ -449,6 +464,13 @@ def oracle_case(c):
         sub = draw(req, hist)
         if not same(sub, full[req]):
             return dict(signature=dict(sig, relation='subset'), what=f'ss.{fam} ({mode}): values for uids {req[:6]} differ between a joint request of all agents and a request of just these (slots {slots[req][:6].tolist()})')
+    if n >= 4:
+        # a few agents fewer in the call: everybody except the first two
+        rest = allu[2:]
+        sub8 = draw(rest, hist)
+        if not same(sub8, full[rest]):
+            return dict(signature=dict(sig, relation='subset-drop'), what=f'ss.{fam} ({mode}): values of agents 2..{n - 1} change when agents 0 and 1 are left out of the call')
+    if len(req):
         # other history: more/larger draws in earlier steps, same final step and ordinal
         last_jump = max(i for i, h in enumerate(hist) if h[0] == 'jumpdt')
         early = hist[:last_jump]
@@ -655,8 +677,9 @@ def gen_extension_cfg(rng):
 def search(ctx):
     import starsim as ss
     families = list(ss.dist_list)
-    for _ in range(ctx.budget(120, 1000)):
-        c = gen_case(ctx.rng, families)
+    st = strata(families)
+    for i in range(ctx.budget(120, 1000)):
+        c = gen_case(ctx.rng, families, *(st[i] if i < len(st) else ()))
         try:
             f = oracle_case(c)
         except Exception as e:
